@@ -3,6 +3,7 @@ import multiprocessing as mp
 import os
 
 _POOL = None
+STOP = None  # set by the runner: returns True once so many work items violated the property that further exploration is pointless
 
 
 def nproc():
@@ -14,8 +15,13 @@ def pmap(func, items, chunksize=1):
     if nproc() <= 1 or len(items) <= 1:
         for it in items:
             yield func(it)
+            if STOP is not None and STOP():
+                return
         return
     ctx = mp.get_context("fork")
     with ctx.Pool(min(nproc(), len(items))) as pool:
         for r in pool.imap_unordered(func, items, chunksize=chunksize):
             yield r
+            if STOP is not None and STOP():
+                pool.terminate()
+                return
